@@ -634,10 +634,12 @@ class CompiledSimulation(object):
                 res.append('(({arg}[{limb}]>>{start})<<{pos})'.format(
                     arg=arg, limb=alimb, start=astart, pos=dpos))
                 dpos += asize
-                if dpos >= dest.bitwidth - 64 * n:
-                    break
                 if dpos > 64:
+                    # the piece straddles the limb boundary: its remainder starts the next limb
+                    # (this has to be recorded even when the piece also completes this limb)
                     curr = (arg, alimb, 64 - (dpos - asize), dpos - 64)
+                    break
+                if dpos >= dest.bitwidth - 64 * n:
                     break
                 curr = next(pieces)
                 if dpos == 64:
